@@ -42,7 +42,7 @@ def run(r: core.Run, prop, module, rule, want):
             pr["ok"] = False
             pr["failed"].append(("leanchecker", out[-500:]))
     r.cov["rule"] = rule
-    d = os.path.join(core.BUILD, "scratch")
+    d = core.SCRATCH
     os.makedirs(d, exist_ok=True)
     base = os.path.join(d, f"{prop}-text")
 
